@@ -97,10 +97,10 @@ def rerun_limit_cases(ctx, n):
 
 
 def run(ctx):
-    extra = (cf_cases(ctx, ctx.budget(2, 10)) + burst_cases(ctx, ctx.budget(14, 150))
-             + rerun_limit_cases(ctx, ctx.budget(8, 100)))
+    extra = (cf_cases(ctx, fakes.bud(ctx, 2, 10)) + burst_cases(ctx, fakes.bud(ctx, 14, 150))
+             + rerun_limit_cases(ctx, fakes.bud(ctx, 8, 100)))
     out, cases, obs, usable, bad = fakes.drive(
-        ctx, "c16", SPEC, ctx.budget(22, 300), ctx.budget(4, 40), ctx.budget(8, 300), RULE,
+        ctx, "c16", SPEC, fakes.bud(ctx, 22, 300), fakes.bud(ctx, 4, 40), fakes.bud(ctx, 8, 300), RULE,
         "more than max_concurrent jobs launched and unfinished at some instant", force_k=True, extra_cases=extra)
     peaks = []
     for i in usable:
